@@ -180,7 +180,7 @@ class Gen(object):
         self.st = Streams(seed)
         sw = self.st['swarm']
         self.rng = self.st['ops']
-        want = {'C16': ['reflexive']}.get(prop, [])
+        want = {'C16': [sw.choice(['reflexive', 'reflexive', 'reflexive_twice'])]}.get(prop, [])
         profile = {}
         if prop == 'C19':
             profile = {'bad_type': 0.5, 'max_plain': 5, 'max_shapes': 2}
@@ -201,6 +201,8 @@ class Gen(object):
             'max_live': sw.choice([6, 9, 12]),
             'meter': sw.random() < (0.3 if prop == 'C16' else 0.05),
         }
+        if prop == 'C10':
+            self.cfg['shadow'] = sw.choice([None, 'upper', 'lower', 'swap'])
         if self.cfg['route'] == 'text' and self.cfg['idgen'] == 'uuid_default':
             self.cfg['idgen'] = 'uuid'
         w = dict(PROFILES[prop])
@@ -648,7 +650,8 @@ class Gen(object):
         supers = {}
         for a in self.sch.assocs:
             same = [b for b in self.sch.assocs if b['rel'] == a['rel'] and b['tgt'] == a['tgt']]
-            if not a['src_many'] and not self.sch.reflexive(a) and all(not b['src_many'] for b in same):
+            if not a['src_many'] and not self.sch.reflexive(a) and all(not b['src_many'] for b in same) and \
+                    not any(b['src_phrase'] or b['tgt_phrase'] for b in same):
                 supers.setdefault((a['tgt'], a['rel']), []).append(a)
         if not supers:
             return None
@@ -657,15 +660,15 @@ class Gen(object):
         h = rng.choice(live) if live and rng.random() < 0.9 else None
         return {'op': 'subtype', 'h': h, 'rel': rel if rng.random() < 0.5 else 'R%d' % rel}
 
-    def reflexive_one(self):
-        for a in self.sch.assocs:
-            if self.sch.reflexive(a) and not a['src_many'] and not a['tgt_many']:
-                return a
-        return None
+    def reflexive_one(self, pick=False):
+        cands = [a for a in self.sch.assocs if self.sch.reflexive(a) and not a['src_many'] and not a['tgt_many']]
+        if not cands:
+            return None
+        return self.rng.choice(cands) if pick else cands[0]
 
     def op_sort(self, partial=False):
         rng = self.rng
-        a = self.reflexive_one()
+        a = self.reflexive_one(pick=True)
         if a is None:
             return None
         i = self.sch.assocs.index(a)
@@ -761,7 +764,7 @@ class Gen(object):
             elif k == 'relate':
                 op = self.op_relate('valid')
             elif k == 'relate_n':
-                op = self.op_relate('valid', refl) if refl else None
+                op = self.op_relate('valid', self.reflexive_one(pick=True)) if refl else None
             elif k == 'relate_dup':
                 op = self.op_relate('dup')
             elif k == 'relate_overflow':
@@ -773,7 +776,7 @@ class Gen(object):
             elif k == 'unrelate':
                 op = self.op_unrelate('valid')
             elif k == 'unrelate_n':
-                op = self.op_unrelate('valid', refl) if refl else None
+                op = self.op_unrelate('valid', self.reflexive_one(pick=True)) if refl else None
             elif k == 'unrelate_unlinked':
                 op = self.op_unrelate('unlinked')
             elif k == 'undo':
@@ -1106,7 +1109,7 @@ class StoreEngine(Engine):
 
     def plan(self, prop, tier):
         if tier == 'quick':
-            return {'runs': 16000, 'chunk': 100, 'wall_cap': 200, 'determinism_runs': 60}
+            return {'runs': 10000 if prop == 'C10' else 16000, 'chunk': 100, 'wall_cap': 200, 'determinism_runs': 60}
         return {'runs': 400000, 'chunk': 500, 'wall_cap': 2400, 'determinism_runs': 1000}
 
     def describe(self, prop):
@@ -1141,7 +1144,43 @@ class StoreEngine(Engine):
 
     # ------------------------------------------------------------------ execute
     def execute(self, case):
+        if case['cfg'].get('shadow'):
+            # a second metamodel in the same process with the same class names but attributes declared in
+            # another letter case lives through the same history first: metamodels must not share spelling state
+            sh = self.shadow_case(case)
+            r0 = Exec(self, sh).run()
+            if r0['violation']:
+                r0['violation']['detail'] = '[shadow metamodel] ' + r0['violation']['detail']
+                return r0
+            r1 = Exec(self, case).run()
+            r1['digest'] = r0['digest'][:32] + r1['digest'][:32]
+            r1['probes']['shadow_world'] = 1
+            return r1
         return Exec(self, case).run()
+
+    @staticmethod
+    def shadow_case(case):
+        import copy
+        sh = copy.deepcopy(case)
+        sh['cfg']['shadow'] = False
+        schema = sh['cfg']['schema']
+        mode = case['cfg']['shadow']
+
+        def flip(n):
+            return {'upper': n.upper(), 'lower': n.lower(), 'swap': n.swapcase()}[mode]
+        for c in schema['classes']:
+            for a in c['attrs']:
+                a[0] = flip(a[0])
+        for a in schema['assocs']:
+            a['src_keys'] = [flip(n) for n in a['src_keys']]
+            a['tgt_keys'] = [flip(n) for n in a['tgt_keys']]
+        for u in schema['uniques']:
+            u['attrs'] = [flip(n) for n in u['attrs']]
+        # referential keywords must be spelled as declared to be defined behaviour
+        for op in sh['ops']:
+            if op.get('op') == 'new' and op.get('ref'):
+                op['kw'] = [[flip(k), v] for k, v in op['kw']]
+        return sh
 
     def reach_missing(self, prop, tier, probes, faults):
         need = {
@@ -1149,7 +1188,7 @@ class StoreEngine(Engine):
                     'delete_with_2_links', 'relate_noop', 'undo_checked', 'reflexive_relate', 'assoc_class_relate'],
             'C09': ['nav_two_hop', 'nav_reflexive', 'nav_len3', 'order_with_ties', 'select_one_none', 'held_rechecked',
                     'nav_from_set', 'subtype_found'],
-            'C10': ['write_then_read_other_spelling', 'F1_set_referential', 'where_eq_spelling', 'delattr'],
+            'C10': ['write_then_read_other_spelling', 'F1_set_referential', 'where_eq_spelling', 'delattr', 'shadow_world'],
             'C11': ['check_nonzero_assoc', 'check_nonzero_unique', 'check_zero', 'check_consistent_true',
                     'check_consistent_false'],
             'C16': ['sort_chain_ge3', 'sort_ring_ge2', 'sort_multi_chain', 'sort_empty', 'sort_partial'],
